@@ -48,6 +48,12 @@ CHECKS = {
             'TLC checks the promised exceptions (ResourceNotFound, [] for a finished study, pure exceptions) on the client model; every deployment must reproduce the '
             'model\'s outcome (value or exception class) and the stored state on every enumerated client program, hence agree with each other.',
             'Deployments are the repository\'s own server classes on localhost in one process; exception classes abstracted per DESIGN 3.1 (raw NotFoundError and RpcError NOT_FOUND are one class).'),
+    'C12': (MC, '5 C12', 'Delivery.tla (Spec A + per-incarnation delivered ghost) model-checked over its complete reachable graph with TLC; every transition replayed on the '
+            'real service hosting a recording designer through PolicyFactory (PartiallySerializableDesignerPolicy rebuilt per request, DesignerPolicy), incl. servicer restarts on an SQLite file',
+            'TLC checks ExactlyOnce / NothingMissedForever on the model and prints, for every transition, the exact arguments Designer.update must receive; the recording '
+            'designer\'s log must equal them. The VIEW includes an ever-delivered ghost so that states the implementation distinguishes (its persisted id cache) are explored separately.',
+            'Bounds: one study, ids <= 3 (4 thorough), 1-2 workers, batch <= 2; complete reachable graph for the stateful mode. The in-RAM kept policy (InRamDesignerPolicy) shares '
+            '_SerializableDesignerPolicyBase with the rebuilt one and is not driven separately. Known finding F14 (id reuse) listed.'),
 }
 
 PENDING = {
